@@ -358,6 +358,8 @@ class Ctx:
 
     def violated(self, rule, where, what, key, **detail):
         """key: construct key (qualified function + normalised construct), never a line number."""
+        if any(i.verdict == "violated" and i.rule == rule and i.key == key for i in self.instances):
+            return  # the same construct reached on several paths is one finding
         self.instances.append(Instance(rule, where, what, "violated", key, detail, True))
 
     def check(self, cond, rule, where, what, key=None, **detail):
